@@ -68,16 +68,14 @@ inductive QStep : QState → QEv → QState → Prop where
   /-- one container's record is read by one of the poll's list requests -/
   | pollRead (s : QState) (c : Uuid) (h : s.polling = true) :
       QStep s .poll { s with snap := qupd s.snap c (some (s.api c)) }
-  /-- `Update` ends: entries that were read replace the cache unless marked `dontupdate`;
-  entries that were not read are expunged; finished containers are only kept if already known -/
+  /-- `Update` ends: entries that were read replace (or are added to) the cache unless marked
+  `dontupdate`; entries that were not read are expunged. (The poll reads finished containers only
+  when they are in the cache at that moment; the model lets it read any, which only adds
+  behaviours.) -/
   | pollEnd (s : QState) (h : s.polling = true) :
       QStep s .poll { s with
         polling := false,
-        cache := fun c =>
-          if s.dont c then s.cache c
-          else match s.snap c with
-            | some st => if st.final && (s.cache c).isNone then none else some st
-            | none => none }
+        cache := fun c => if s.dont c then s.cache c else s.snap c }
   /-- `StartContainer(c)` (L1: only for a container Locked in the pass's queue snapshot) -/
   | start (s : QState) (c : Uuid) (h : s.cache c = some .locked) :
       QStep s (.start c) s
